@@ -932,15 +932,16 @@ func runC01(rc *RunCtx) {
 
 func init() {
 	register(&Property{
-		ID:     "C01",
-		Enum:   c01EnumCount,
-		Case:   c01Case,
-		Random: func(tier string) int { return map[string]int{"quick": 2500, "thorough": 100000}[tier] },
-		Run:    runC01,
-		Level:  "exploration",
-		Rule:   "enumerated part: every read-buffer size B from 8 to len+2 (= every cut position) for a fixed corpus of FASTA/FASTQ/GenBank/EMBL files (8 quick, 40 thorough), each with a drawn stage, worker count, read-size pattern and schedule; random part: generated files (line folding, CRLF, upper case, trailing blank lines, no final newline, quality lines with @ + >, headers with > @ +, JSON headers, flat-file records with and without taxon cross-reference), three stages (ReadSeqFileChunk + chunk parsers; Read*; Buf + sniffer + Read* over plain/gzip/bzip2/xz/zstd), 1-4 parser workers, short/zero/EOF-with-data reads. distinct = distinct (format, size, configuration, schedule signature); non-trivial = buffer smaller than the file, or >=2 workers, or short reads",
-		Real:   []string{"obiformats.ReadSeqFileChunk and EndOfLast{Fasta,Fastq,FlatFile}Entry", "Fasta/Fastq/Genbank/Embl chunk parsers", "ReadFasta/ReadFastq/ReadGenbank/ReadEMBL", "Buf (codec detection, pgzip/bzip2/xz/zstd decoders)", "OBIMimeTypeGuesser", "header parsers", "obiiter iterators"},
-		Stub:   []string{"input endpoint (simrt.SimReader: read sizes, zero reads, EOF-with-data)", "chunk-buffer size (knob)", "sync primitives and scheduler (simrt)", "the dispatch of ReadSequencesFromFile is transcribed in the harness for the library stage (the real one runs in the command stage)"},
+		ID:            "C01",
+		JobTimeoutSec: 600,
+		Enum:          c01EnumCount,
+		Case:          c01Case,
+		Random:        func(tier string) int { return map[string]int{"quick": 2500, "thorough": 100000}[tier] },
+		Run:           runC01,
+		Level:         "exploration",
+		Rule:          "enumerated part: every read-buffer size B from 8 to len+2 (= every cut position) for a fixed corpus of FASTA/FASTQ/GenBank/EMBL files (8 quick, 40 thorough), each with a drawn stage, worker count, read-size pattern and schedule; random part: generated files (line folding, CRLF, upper case, trailing blank lines, no final newline, quality lines with @ + >, headers with > @ +, JSON headers, flat-file records with and without taxon cross-reference), three stages (ReadSeqFileChunk + chunk parsers; Read*; Buf + sniffer + Read* over plain/gzip/bzip2/xz/zstd), 1-4 parser workers, short/zero/EOF-with-data reads. distinct = distinct (format, size, configuration, schedule signature); non-trivial = buffer smaller than the file, or >=2 workers, or short reads",
+		Real:          []string{"obiformats.ReadSeqFileChunk and EndOfLast{Fasta,Fastq,FlatFile}Entry", "Fasta/Fastq/Genbank/Embl chunk parsers", "ReadFasta/ReadFastq/ReadGenbank/ReadEMBL", "Buf (codec detection, pgzip/bzip2/xz/zstd decoders)", "OBIMimeTypeGuesser", "header parsers", "obiiter iterators"},
+		Stub:          []string{"input endpoint (simrt.SimReader: read sizes, zero reads, EOF-with-data)", "chunk-buffer size (knob)", "sync primitives and scheduler (simrt)", "the dispatch of ReadSequencesFromFile is transcribed in the harness for the library stage (the real one runs in the command stage)"},
 	})
 }
 
@@ -1291,8 +1292,9 @@ func minI(a, b int) int {
 
 func init() {
 	register(&Property{
-		ID:   "C17",
-		Enum: func(tier string) int { return len(c17Cases(tier)) },
+		ID:            "C17",
+		JobTimeoutSec: 900,
+		Enum:          func(tier string) int { return len(c17Cases(tier)) },
 		Case: func(tier string, i int) []int32 {
 			c := c17Cases(tier)[i]
 			return []int32{1, int32(c.img), int32(c.kind), int32(c.k), int32(c.bit)}
